@@ -381,6 +381,9 @@ func (r *rewriter) callOp(call *ast.CallExpr) string {
 			return ""
 		}
 		return "sync." + recvName + "." + fn.Name()
+	case pkg == "runtime" && recvName == "" && fn.Name() == "Gosched":
+		// the body of a spin-wait: a poller, eligible again only after something changed
+		return "runtime.Gosched:blocked"
 	case pkg == "time" && recvName == "" && timeFuncs[fn.Name()]:
 		return "time." + fn.Name()
 	case ioPkgs[pkg]:
